@@ -93,6 +93,9 @@ expr_t::ptr_op_t expr_t::op_t::compile(scope_t& scope, const int depth,
   unique_ptr<scope_t> bound_scope;
   expr_t::ptr_op_t    result;
 
+  if (depth > MAX_DEPTH)
+    throw_(compile_error, _("Value expression recurses too deeply"));
+
 #if DEBUG_ON
   if (SHOW_DEBUG("expr.compile")) {
     for (int i = 0; i < depth; i++)
@@ -254,6 +257,9 @@ value_t expr_t::op_t::calc(scope_t& scope, ptr_op_t * locus, const int depth)
   try {
 
   value_t result;
+
+  if (depth > MAX_DEPTH)
+    throw_(calc_error, _("Value expression recurses too deeply"));
 
 #if DEBUG_ON
   if (SHOW_DEBUG("expr.calc")) {
